@@ -86,6 +86,11 @@ Constant(a) ==
   \/ a.t = "vec" /\ \A k \in 1..Len(a.xs) : Constant(a.xs[k])
   \/ a.t = "map" /\ \A k \in DOMAIN a.m : Constant(a.m[k])
 
+\* (fn params body...) with a well-formed parameter list, `fn` not rebound: evaluates to a closure, no effect, no error
+ClosureLiteral(a, e, st) ==
+  /\ a.t = "list" /\ Len(a.xs) >= 2 /\ a.xs[1] = SymV("fn") /\ ParamsOk(a.xs[2])
+  /\ ~Lookup(st.envs, e, "fn").found
+
 \* split (try body... [(catch s h...)] [(finally f...)])
 TryParts(a) ==
   LET n == Len(a.xs)
@@ -374,7 +379,8 @@ Ev(a, e, st0) ==
     [] a.t = "vec" ->
          LET r == EvArgs(a.xs, 1, e, st, <<>>) IN IF Ok(r) THEN R("val", VecV(r.v.xs), r.st) ELSE r
     [] a.t = "map" ->
-         IF Cardinality({k \in DOMAIN a.m : ~Constant(a.m[k])}) >= 2 THEN R("unspec", NilV, st)
+         \* (a closure literal is as good as a constant here: making a closure has no effect and cannot fail)
+         IF Cardinality({k \in DOMAIN a.m : ~Constant(a.m[k]) /\ ~ClosureLiteral(a.m[k], e, st)}) >= 2 THEN R("unspec", NilV, st)
          ELSE EvMapLit(a.m, SetToSeq(DOMAIN a.m), 1, e, st)
     [] a.t = "list" /\ a.xs = <<>> -> R("val", a, st)
     [] a.t = "list" /\ a.xs # <<>> ->
@@ -467,6 +473,10 @@ PreludeText ==
   "(def *host-language* \"go\") (def *ARGV* ())" \o
   "(def reduce-kv (fn [f init xs] (if (empty? xs) init (reduce-kv f (f init (nth xs 0) (nth xs 1)) (rest (rest xs))))))" \o
   "(def foldr (let [rec (fn [f xs acc index] (if (< index 0) acc (rec f xs (f (nth xs index) acc) (- index 1))))] (fn [f init xs] (rec f xs init (- (count xs) 1)))))" \o
+  "(def find-type (fn [obj] (cond (symbol? obj) :mal/symbol (keyword? obj) :mal/keyword (atom? obj) :mal/atom (nil? obj) :mal/nil (true? obj) :mal/boolean (false? obj) :mal/boolean (number? obj) :mal/number (string? obj) :mal/string (macro? obj) :mal/macro true (let [metadata (meta obj) type (if (map? metadata) (get metadata :type))] (cond (keyword? type) type (list? obj) :mal/list (vector? obj) :mal/vector (map? obj) :mal/map (fn? obj) :mal/function true (throw \"unknown MAL value in protocols\"))))))" \o
+  "(defmacro defprotocol (fn [proto-name & methods] (let [drop2 (fn [args] (if (= 2 (count args)) () (cons (first args) (drop2 (rest args))))) rewrite (fn [method] (let [name (first method) args (nth method 1) argc (count args) varargs? (if (<= 2 argc) (= '& (nth args (- argc 2)))) dispatch `(get (get @~proto-name (find-type ~(first args))) ~(keyword (str name))) body (if varargs? `(apply ~dispatch ~@(drop2 args) ~(nth args (- argc 1))) (cons dispatch args))] (list 'def name (list 'fn args body))))] `(do ~@(map rewrite methods) (def ~proto-name (atom {}))))))" \o
+  "(def extend (fn [type proto methods & more] (do (swap! proto assoc type methods) (if (first more) (apply extend type more)))))" \o
+  "(def satisfies? (fn [protocol obj] (contains? @protocol (find-type obj))))" \o
   "(defmacro future (fn [& body] `(future-call (fn [] ~@body))))" \o
   "(def memoize (fn [f] (let [mem (atom {})] (fn [& args] (let [key (str args)] (if (contains? @mem key) (get @mem key) (let [ret (apply f args)] (do (swap! mem assoc key ret) ret))))))))"
 
